@@ -8,6 +8,8 @@ import traceback
 
 VERIF = os.path.dirname(os.path.dirname(os.path.abspath(__file__)))
 REPO = os.environ.get("VERIF_REPO", "/repo")
+# scratch runs (mutation experiments against a copy of the repository) write their evidence/replays elsewhere
+OUT = os.environ.get("VERIF_OUT") or VERIF
 EXIT_OK, EXIT_VIOLATION, EXIT_HARNESS = 0, 1, 3
 
 
@@ -96,13 +98,77 @@ def solve(res, name, assertions, timeout_ms=30000, want_model=True, logic=None, 
         r = s.check()
         verdict = str(r)
         model = s.model() if (r == z3.sat and want_model) else None
+        tried = 0
+        if verdict == "unknown" and want_model and os.environ.get("VERIF_NO_WITNESS") != "1":
+            # The solver gave up.  That is inconclusive for "holds", but a violation may still be easy to exhibit: propose
+            # points of the box-bounded variables and let the solver *decide* the query with those variables fixed
+            # (evaluation + the remaining variables).  A `sat` here is a genuine model of the original query; it is
+            # replayed on the real code like any other.  Nothing is ever concluded from not finding one.
+            model, tried = _witness_search(flat, logic)
+            if model is not None:
+                verdict = "sat"
     dt = time.time() - t0
     if record:
         zs = [a for a in flat if isinstance(a, z3.ExprRef)]
         nv, hh = term_info(zs)
-        res.queries.append({"name": name, "verdict": verdict, "seconds": round(dt, 3), "nvars": nv,
-                            "nontrivial": nv > 0, "hash": hh})
+        q = {"name": name, "verdict": verdict, "seconds": round(dt, 3), "nvars": nv, "nontrivial": nv > 0, "hash": hh}
+        if not any(isinstance(a, bool) and not a for a in flat) and tried:
+            q["witness_points_tried"] = tried
+        res.queries.append(q)
     return verdict, model
+
+
+def _boxes(flat):
+    """variables with a finite box read off assertions of the form v >= c, v <= c, v > c, v < c"""
+    import z3
+    from fractions import Fraction
+    lo, hi, var = {}, {}, {}
+    for a in flat:
+        if not isinstance(a, z3.ExprRef) or not z3.is_app(a) or a.num_args() != 2:
+            continue
+        l, r = a.arg(0), a.arg(1)
+        if not (z3.is_const(l) and l.decl().kind() == z3.Z3_OP_UNINTERPRETED and (z3.is_rational_value(r) or z3.is_int_value(r))):
+            continue
+        c = Fraction(r.numerator_as_long(), r.denominator_as_long()) if z3.is_rational_value(r) else Fraction(r.as_long())
+        k = a.decl().kind()
+        i = l.get_id(); var[i] = l
+        if k in (z3.Z3_OP_GE, z3.Z3_OP_GT):
+            lo[i] = max(c, lo.get(i, c))
+        elif k in (z3.Z3_OP_LE, z3.Z3_OP_LT):
+            hi[i] = min(c, hi.get(i, c))
+    return [(var[i], lo[i], hi[i]) for i in var if i in lo and i in hi and lo[i] <= hi[i]]
+
+
+def _witness_search(flat, logic, points=10, timeout_ms=2000):
+    import random
+    import z3
+    from fractions import Fraction
+    bx = _boxes(flat)
+    if not bx:
+        return None, 0
+    rng = random.Random(12345)
+    tried = 0
+    for k in range(points):
+        fix = []
+        for v, a, b in bx:
+            if k == 0:
+                t = Fraction(1, 3)
+            elif k == 1:
+                t = Fraction(5, 7)
+            else:
+                t = Fraction(rng.randint(1, 96), 97)
+            val = a + (b - a) * t
+            if v.sort().kind() == z3.Z3_INT_SORT:
+                val = Fraction(int(round(float(val))))
+                fix.append(v == int(val))
+            else:
+                fix.append(v == z3.RealVal(val))
+        s = z3.Solver(); s.set("timeout", timeout_ms)
+        s.add(*flat); s.add(*fix)
+        tried += 1
+        if s.check() == z3.sat:
+            return s.model(), tried
+    return None, tried
 
 
 def model_value(model, term):
@@ -175,7 +241,7 @@ class Check:
             samples = [{"query": q["name"], "verdict": q["verdict"], "vars": q["nvars"], "seconds": q["seconds"]}
                        for q in queries[:8]]
         # ---- violations vs known findings
-        os.makedirs(os.path.join(VERIF, "replays"), exist_ok=True)
+        os.makedirs(os.path.join(OUT, "replays"), exist_ok=True)
         new_viol = []
         lines = []
         known_hit = []
@@ -185,7 +251,7 @@ class Check:
                 known_hit.append(v)
                 lines.append("KNOWN-FINDING: property=%s %s (%s)" % (s.pid, v["key"], v["what"]))
             else:
-                path = os.path.join(VERIF, "replays", "%s-%03d.json" % (s.pid, k))
+                path = os.path.join(OUT, "replays", "%s-%03d.json" % (s.pid, k))
                 with open(path, "w") as f:
                     json.dump({"property": s.pid, "key": v["key"], "what": v["what"], "replay": v.get("replay")}, f,
                               indent=1, default=str)
@@ -237,8 +303,8 @@ class Check:
             "coverage": cov, "assumptions": s.assumptions + s.trusted,
             "wall_s": round(time.time() - s.t0, 2), "violations": len(new_viol),
         }
-        os.makedirs(os.path.join(VERIF, "evidence"), exist_ok=True)
-        with open(os.path.join(VERIF, "evidence", s.pid + ".json"), "w") as f:
+        os.makedirs(os.path.join(OUT, "evidence"), exist_ok=True)
+        with open(os.path.join(OUT, "evidence", s.pid + ".json"), "w") as f:
             json.dump(ev, f, indent=1, default=str)
         print("%s tier=%s units=%d queries=%d %s distinct_nontrivial=%d violations=%d known=%d wall=%.1fs exit=%d" % (
             s.pid, s.tier, len(s.results), len(queries), byv, distinct, len(new_viol), len(known_hit),
